@@ -1,5 +1,6 @@
 From BB Require Import Base TM Ref TapeModel InstrsModel RulesModel MachineModel ProverModel ReplayModel.
 From BB Require Import TapeCanon StepSim RulesExact RuleSound ProverSound.
+From BB Require Import SymRule SymRuleSound.
 From BB.Properties Require Import C03.
 Open Scope N_scope.
 
@@ -51,3 +52,52 @@ Check C03_trace_replayed_apps_real : forall comp lim r apps fuel,
   forall a, In a apps ->
     exists n z, tm_steps (to_prog comp) n (app_state a, unroll_tape (app_before a)) = Some (app_state a, z) /\
                 tape_eq z (unroll_tape (app_after a)).
+Check C03_check_rule_sound : forall comp q t0 r m cycles restarts n req,
+  check_rule comp q t0 r m cycles restarts = CCert n req ->
+  forall t t1, canon_tape t -> same_shape t t0 -> lens_eq t t0 ->
+    fixed_ok m t t0 -> req_ok req t -> Shifted r 1 t t1 ->
+    exists k z, (1 <= k)%nat /\
+      tm_steps (to_prog comp) k (q, unroll_tape t) = Some (q, z) /\
+      tape_eq z (unroll_tape t1).
+Check C03_check_rule_valid : forall comp q r t0 cycles restarts n req,
+  check_rule comp q t0 r mask_all cycles restarts = CCert n req ->
+  req_le_guard r t0 req = true ->
+  RuleValid (to_prog comp) q r t0.
+Check C03_cover_rule_valid : forall comp q r t0 cycles restarts fuel,
+  cover comp q r cycles restarts (guard_bounds 1 mask_all r t0) fuel mask_all t0 = true ->
+  RuleValid (to_prog comp) q r t0.
+Check C03_cover_apply_sound : forall comp q r t0 cycles restarts fuel t times t',
+  cover comp q r cycles restarts (guard_bounds 1 mask_all r t0) fuel mask_all t0 = true ->
+  canon_tape t -> same_shape t t0 -> rule_keys_nodup r ->
+  apply_rule t r = Ok (Some times, t') ->
+  exists n z, (N.to_nat times <= n)%nat /\
+    tm_steps (to_prog comp) n (q, unroll_tape t) = Some (q, z) /\
+    tape_eq z (unroll_tape t') /\ canon_tape t'.
+Check C03_apply_sound_above : forall comp q t0 r m cycles restarts n req t times t',
+  check_rule comp q t0 r m cycles restarts = CCert n req ->
+  app_covered m req t0 t r times = true ->
+  canon_tape t -> same_shape t t0 -> rule_keys_nodup r ->
+  apply_rule t r = Ok (Some times, t') ->
+  exists k z, (N.to_nat times <= k)%nat /\
+    tm_steps (to_prog comp) k (q, unroll_tape t) = Some (q, z) /\
+    tape_eq z (unroll_tape t') /\ canon_tape t'.
+Check C03_apps_certified_valid : forall comp cycles restarts fuel apps,
+  apps_certified comp cycles restarts fuel apps = true -> apps_valid (to_prog comp) apps.
+Check C03_test_rule_valid : RuleValid (to_prog C03_test_machine) 0 C03_test_rule C03_test_tape.
+Check C03_apply_split_above : forall comp q t0 r m cycles restarts n req t times t',
+  check_rule comp q t0 r m cycles restarts = CCert n req ->
+  canon_tape t -> same_shape t t0 -> rule_keys_nodup r ->
+  apply_rule t r = Ok (Some times, t') ->
+  let K := max_covered m req t0 t r times in
+  exists k z, (N.to_nat K <= k)%nat /\
+    tm_steps (to_prog comp) k (q, unroll_tape t) = Some (q, z) /\
+    tape_eq z (unroll_tape (shift_tape_N r K t)) /\
+    canon_tape (shift_tape_N r K t) /\
+    Shifted r (N.to_nat K) t (shift_tape_N r K t).
+Check C03_cover_sig_apply_sound : forall comp q r cycles restarts fuel t0,
+  cover_sig comp q r cycles restarts fuel t0 = true ->
+  forall t times t', canon_tape t -> tape_sig t = tape_sig t0 -> rule_keys_nodup r ->
+  apply_rule t r = Ok (Some times, t') ->
+  exists n z, (N.to_nat times <= n)%nat /\
+    tm_steps (to_prog comp) n (q, unroll_tape t) = Some (q, z) /\
+    tape_eq z (unroll_tape t') /\ canon_tape t'.
